@@ -301,17 +301,20 @@ def _memo_rule(ctx: Ctx, rs: RuleSet):
   for s in sites:
     rs.check(unparse(s.x) == val, rule, f'{f.qualname}:_memo:key',
              f'keyed by id({unparse(s.x)})', ctx.loc(f, s.node))
-    # pin must be in the same statement list as the store
-    same_block = False
-    for n in walk_function(f.node):
-      for fld in ('body', 'orelse'):
-        blk = getattr(n, fld, None)
-        if isinstance(blk, list) and s.node in blk:
-          same_block = any(
-              isinstance(x, ast.Expr) and isinstance(x.value, ast.Call) and
-              isinstance(x.value.func, ast.Attribute) and
-              x.value.func.attr in ('append', 'add') and x.value.args and
-              unparse(x.value.args[0]) == val for x in blk)
+    # the pin runs whenever the store runs: on every path the store is
+    # either preceded (dominated) or followed (post-dominated, exceptions
+    # aside) by `<container>.append(value)` / `.add(value)`
+    gm = ctx.cfg(f)
+    pins = {n for n in gm.nodes() if any(
+        isinstance(x, ast.Call) and isinstance(x.func, ast.Attribute) and
+        x.func.attr in ('append', 'add') and x.args and
+        unparse(x.args[0]) == val for x in cfg_lib.walk_node(gm, n))}
+    store_nodes = [n for n in gm.nodes() if any(
+        x is s.node for x in cfg_lib.walk_node(gm, n)) or gm.stmt[n] is s.node]
+    same_block = bool(pins) and bool(store_nodes) and all(
+        gm.dominated_by(n, pins, labels=cfg_lib.NO_EXC) or
+        gm.postdominated_by(n, pins, [gm.exit], labels=cfg_lib.NO_EXC)
+        for n in store_nodes)
     rs.check(s.pinned and same_block, rule, f'{f.qualname}:_memo:pin',
              s.how if s.pinned and same_block else
              f'`{unparse(s.node)}` records id({val}) but `{val}` is not kept '
@@ -368,6 +371,19 @@ def _loud_rules(ctx: Ctx, rs: RuleSet):
     if isinstance(t, ast.Compare) and isinstance(t.ops[0], ast.In) and (
         '_serialization_constants' in unparse(t.comparators[0])):
       return False
+    # the registered-constant lookup done by a helper that returns None when
+    # there is none: `(c := lookup(value)) is not None`
+    if isinstance(t, ast.Compare) and len(t.ops) == 1 and isinstance(
+        t.ops[0], (ast.Is, ast.IsNot)) and isinstance(
+            t.comparators[0], ast.Constant) and (
+                t.comparators[0].value is None):
+      left = t.left.value if isinstance(t.left, ast.NamedExpr) else (
+          roles.deref(f, t.left))
+      if isinstance(left, ast.Call):
+        h = ctx.p.funcs.get(ctx.p.resolve(left.func, f) or '')
+        if h is not None and not h.is_lambda and (
+            '_serialization_constants' in unparse(h.node)):
+          return isinstance(t.ops[0], ast.Is)
     return None
 
   r = dispatch.reach_atoms(g, _ev)
